@@ -861,11 +861,19 @@ func (fx *FnExec) loopInvariants(li *loopInfo) []*CExpr {
 	return out
 }
 
+// deriveMeasures: termination measures are derived from loop guards only in runs that claim them (C05,
+// and the dump command): a derived measure adds definitions and, once checked, a fact to every later
+// query of its function, and the heaviest queries of the tokenizers are sensitive to that.
+var deriveMeasures = true
+
 func (fx *FnExec) loopDecreases(li *loopInfo) *CExpr {
 	if fx.C != nil {
 		if d := fx.C.LoopDec[li.ordinal]; d != nil {
 			return d
 		}
+	}
+	if !deriveMeasures {
+		return nil
 	}
 	if fx.autoDec == nil {
 		fx.autoDec = map[int]*CExpr{}
